@@ -85,6 +85,7 @@ def plan_for(prop, tier):
             stages=[
                 dict(kind="worker", name="enum-hint-states", variant="asan", part="enum", runs=-1, block=100, hash_mod=97, key_mod=1),
                 dict(kind="worker", name="random-histories", variant="asan", part="random", runs=6000 if q else 150000, block=100, hash_mod=50, key_mod=1),
+                dict(kind="order", name="load-order-vs-single-zone-process", variant="asan", part="order", runs=20000 if q else 400000, block=100, hash_mod=50, key_mod=1),
                 dict(kind="worker", name="cacheB", variant="asan", part="", runs=80000 if q else 2000000, block=1000, hash_mod=50, key_mod=1 if q else 16),
                 dict(kind="worker", name="cacheB-weak-hash", variant="asan", part="", runs=20000 if q else 500000, block=1000, hash_mod=50, key_mod=1 if q else 16, extra=["--weak-hash"]),
                 dict(kind="worker", name="hints-multitask-tsan", variant="tsan", part="hints", runs=60000 if q else 1500000, block=1000, hash_mod=50, key_mod=1 if q else 16),
@@ -335,6 +336,33 @@ def execute_plan(prop, tier, seed, plan, say):
     return dict(violations=violations, machinery=machinery, coverage=cov)
 
 
+def stage_order(st, prop, tier, seed, say):
+    """C14: zones loaded one after another must each look as they do in a process that loads nothing else.
+    The references are taken here, one fresh process per zone, and handed to the workers in a file."""
+    out = dict(machinery=[], violations=[], evaluations=0, keys=[], samples=[], fault_fired={}, probes={})
+    t0 = time.time()
+    path, nrefs, missing = R.single_zone_references(st["variant"])
+    refs = range(nrefs)
+    for b in missing:
+        out["machinery"].append("no fingerprint for %s" % b)
+    try:
+        res = R.run_stage(st["variant"], prop, tier, seed, st["part"], st["runs"], st["block"], hash_mod=st.get("hash_mod", 0), key_mod=1, samples=1, extra=["--refs", path])
+    finally:
+        try:
+            os.remove(path)
+        except OSError:
+            pass
+    out["machinery"] += res.machinery
+    out["violations"] += res.violations
+    out["evaluations"] = res.runs
+    out["keys"] = list(res.keys)
+    out["samples"] = res.samples
+    out["record"] = dict(name=st["name"], build=st["variant"], runs=res.runs, nontrivial_runs=res.nontrivial, single_zone_reference_processes=len(refs),
+                         wall_s=round(time.time() - t0, 1), stats=res.stats)
+    say("  stage %-28s runs=%d references=%d violating=%d (%.1fs)" % (st["name"], res.runs, len(refs), len(set(v["run"] for v in res.violations)), time.time() - t0))
+    return out
+
+
 def stage_valgrind(st, prop, tier, seed, say):
     """A sample of runs on the uninstrumented build under memcheck: uninitialised-value use and invalid
     accesses inside cctz, independent of what the heap happens to contain."""
@@ -369,7 +397,7 @@ def stage_valgrind(st, prop, tier, seed, say):
     return out
 
 
-EXTRA_STAGES = {"digestdiff": stage_digestdiff, "valgrind": stage_valgrind}
+EXTRA_STAGES = {"order": stage_order, "digestdiff": stage_digestdiff, "valgrind": stage_valgrind}
 
 
 def _slug(s):
@@ -505,7 +533,7 @@ def report_block(prop, tier, seed, cls, v, case):
             _, d0 = R.block_replay("gzero", prop, tier, seed, part, start, run, want_digest=True)
             _, d1 = R.block_replay("gpat", prop, tier, seed, part, start, run, want_digest=True)
             return (d0, d1), (d0 is not None and d1 is not None and d0 != d1)
-        classes, _ = R.block_replay(v["variant"], prop, tier, seed, part, start, run)
+        classes, _ = R.block_replay(v["variant"], prop, tier, seed, part, start, run, extra=[("<taken afresh>" if x.endswith(".json") else x) for x in v.get("extra", [])])
         return tuple(sorted(set(classes))), cls in classes
     a, ok_a = once()
     b, ok_b = once()
@@ -515,7 +543,7 @@ def report_block(prop, tier, seed, cls, v, case):
     path = os.path.join(VERIF, "replays", "%s-%s-%d-%s.json" % (prop, _slug(cls), seed, run))
     rep = dict(format=1, property=prop, build=("gzero" if differential else v["variant"]), differential_with=("gpat" if differential else None), origin_seed=seed, tier=tier,
                stage=v.get("stage"), run_index=run, **{"class": cls}, site=v.get("site", ""), detail=v.get("detail", ""), case=case,
-               block_replay=dict(part=part, start=start, run=run, note="the outcome depends on what the process executed before this run (leftover heap contents, or library state that survives the cache reset); "
+               block_replay=dict(part=part, start=start, run=run, extra=[("<taken afresh>" if x.endswith(".json") else x) for x in v.get("extra", [])], note="the outcome depends on what the process executed before this run (leftover heap contents, or library state that survives the cache reset); "
                                  "replay re-executes the worker from `start` to `run` in a fresh process, which is a pure function of the seed and the indices"),
                minimisation=dict(reexecutions=0, note="not minimised: the case only fails in the context of its block"))
     with open(path, "w") as f:
